@@ -31,6 +31,22 @@ theorem baseOpenFile_frozen (c : Cow) (k : Key) (flag perm : Nat) (hf : flag &&&
   simp only
   split <;> exact this
 
+theorem open_frozen (c : Cow) (name : Str) (h : BaseRO c) :
+    baseTree (c.open_ name).1 = baseTree c ∧ BaseRO (c.open_ name).1 := by
+  unfold Cow.open_
+  simp only
+  have hb := openRO_frozen c.s.b (keyOfStr name) h
+  unfold baseTree BaseRO Cow.addH
+  split
+  · split <;> exact hb
+  · split
+    · exact ⟨rfl, h⟩
+    · split
+      · split
+        · exact hb
+        · exact ⟨rfl, h⟩
+      · split <;> exact ⟨rfl, h⟩
+
 theorem openFile_frozen (c : Cow) (name : Str) (flag perm : Nat) (h : BaseRO c) :
     baseTree (c.openFile name flag perm).1 = baseTree c ∧ BaseRO (c.openFile name flag perm).1 := by
   unfold Cow.openFile
@@ -59,23 +75,9 @@ theorem openFile_frozen (c : Cow) (name : Str) (flag perm : Nat) (h : BaseRO c) 
     have hm' : flag &&& cowWriteMask = 0 := by simpa using hm
     split
     · exact baseOpenFile_frozen c _ flag perm hm' h
-    · unfold baseTree BaseRO; rw [layerOpenFile_b]; exact ⟨rfl, h⟩
-
-theorem open_frozen (c : Cow) (name : Str) (h : BaseRO c) :
-    baseTree (c.open_ name).1 = baseTree c ∧ BaseRO (c.open_ name).1 := by
-  unfold Cow.open_
-  simp only
-  have hb := openRO_frozen c.s.b (keyOfStr name) h
-  unfold baseTree BaseRO Cow.addH
-  split
-  · split <;> exact hb
-  · split
-    · exact ⟨rfl, h⟩
     · split
-      · split
-        · exact hb
-        · exact ⟨rfl, h⟩
-      · split <;> exact ⟨rfl, h⟩
+      · exact open_frozen c name h
+      · unfold baseTree BaseRO; rw [layerOpenFile_b]; exact ⟨rfl, h⟩
 
 /-- the base component after a union listing is the base itself or the base after its own Readdir -/
 theorem ureaddir_b (s : Layers) (u : UFile) (c : Int) :
